@@ -827,14 +827,14 @@ func genAllArgsCons(ctx TaggedStructContext, genMethod fp.Set[string]) fp.Set[st
 		}).MakeString(",")
 
 		fields := iterator.Map(iterator.Zip(iterator.Range(0, allFields.Size()), seq.Iterator(allFields)), func(f fp.Tuple2[int, metafp.StructField]) string {
-			return fmt.Sprintf("%s : %s", f.I2.Name, f.I2.Name)
-		}).MakeString(",\n")
+			return fmt.Sprintf("%s : %s,", f.I2.Name, f.I2.Name)
+		}).MakeString("\n")
 
 		valueType := ts.Info.TypeStr(w, workingPackage)
 		fmt.Fprintf(w, `
 			func %s%s(%s) %s {
 				return %s {
-					%s,
+					%s
 				}
 			}
 		`, fnName, ts.Info.TypeParamDecl(w, workingPackage), tp, valueType,
@@ -864,14 +864,14 @@ func genRequiredArgsCons(ctx TaggedStructContext, genMethod fp.Set[string]) fp.S
 		}).MakeString(",")
 
 		fields := iterator.Map(iterator.Zip(iterator.Range(0, allFields.Size()), seq.Iterator(allFields)), func(f fp.Tuple2[int, metafp.StructField]) string {
-			return fmt.Sprintf("%s : %s", f.I2.Name, f.I2.Name)
-		}).MakeString(",\n")
+			return fmt.Sprintf("%s : %s,", f.I2.Name, f.I2.Name)
+		}).MakeString("\n")
 
 		valueType := ts.Info.TypeStr(w, workingPackage)
 		fmt.Fprintf(w, `
 			func %s%s(%s) %s {
 				return %s {
-					%s,
+					%s
 				}
 			}
 		`, fnName, ts.Info.TypeParamDecl(w, workingPackage), tp, valueType,
